@@ -19,6 +19,7 @@ import (
 	"strings"
 
 	"github.com/oasisprotocol/oasis-core/go/storage/mkvs"
+	db "github.com/oasisprotocol/oasis-core/go/storage/mkvs/db/api"
 	"github.com/oasisprotocol/oasis-core/go/storage/mkvs/node"
 	"github.com/oasisprotocol/oasis-core/go/storage/mkvs/writelog"
 
@@ -86,6 +87,40 @@ func dumpCoq(n *mkvs.VerifNode, internal *int) string {
 		dumpCoq(n.Leaf, internal), dumpCoq(n.Left, internal), dumpCoq(n.Right, internal))
 }
 
+// storedTreeFinite walks the nodes stored under root directly through the node
+// database (no cache) with a bound on depth and node count.
+func storedTreeFinite(ndb db.NodeDB, root node.Root) error {
+	const maxDepth, maxNodes = 600, 200000 // keys are at most 64 bytes = 512 bits
+	nodes := 0
+	var walk func(ptr *node.Pointer, d int) error
+	walk = func(ptr *node.Pointer, d int) error {
+		if ptr == nil {
+			return nil
+		}
+		if nodes++; d > maxDepth || nodes > maxNodes {
+			return fmt.Errorf("deeper than %d levels or more than %d nodes (a node refers back to an ancestor)", maxDepth, maxNodes)
+		}
+		n := ptr.Node
+		if n == nil {
+			if ptr.Hash.IsEmpty() {
+				return nil
+			}
+			var err error
+			if n, err = ndb.GetNode(root, ptr); err != nil {
+				return fmt.Errorf("GetNode at depth %d: %w", d, err)
+			}
+		}
+		if in, ok := n.(*node.InternalNode); ok {
+			if err := walk(in.Left, d+1); err != nil {
+				return err
+			}
+			return walk(in.Right, d+1)
+		}
+		return nil
+	}
+	return walk(&node.Pointer{Clean: true, Hash: root.Hash}, 0)
+}
+
 func dumpContents(n *mkvs.VerifNode, into map[string][]byte) {
 	if n == nil || n.Kind == 0 {
 		return
@@ -110,24 +145,26 @@ func showMap(m map[string][]byte) string {
 // ---------- running one case on the implementation ----------
 
 type res02 struct {
-	coqOps   []string
-	roots    [][]byte
-	logs     [][]WLEntry // the write logs returned by Commit, sorted by key
-	table    *hashTable
-	dumpStr  string
-	internal int
-	ref      map[string][]byte // reference contents at the end
-	used     map[string]bool   // every key touched
-	viol     *violation
-	panicked bool
-	stats    counts
-	commits  int
-	reopens  int
-	eff      []Op // the operations actually performed (illegal reopens skipped)
-	cut      int  // with a violation: the number of leading operations that produced it
-	sig      sigState
-	faulted  map[int]bool // indices (in the case's ops) of the ops that returned the injected error and were retried
-	fired    int
+	coqOps    []string
+	roots     [][]byte
+	logs      [][]WLEntry // the write logs returned by Commit, sorted by key
+	table     *hashTable
+	dumpStr   string
+	internal  int
+	ref       map[string][]byte // reference contents at the end
+	used      map[string]bool   // every key touched
+	viol      *violation
+	panicked  bool
+	stats     counts
+	commits   int
+	reopens   int
+	eff       []Op // the operations actually performed (illegal reopens skipped)
+	cut       int  // with a violation: the number of leading operations that produced it
+	sig       sigState
+	completed bool
+	badKnown  int          // failed CommitKnown attempts performed
+	faulted   map[int]bool // indices (in the case's ops) of the ops that returned the injected error and were retried
+	fired     int
 }
 
 func (r *res02) finalRoot() []byte {
@@ -188,6 +225,34 @@ func withFaulted(c Case, r *res02) Case {
 	return c.withOps(ops)
 }
 
+// isCommit: the op commits the tree (a successful commit in the model).
+func isCommit(k string) bool { return k == "commit" || k == "commitknown_ok" }
+
+// commitOps: a commit point of a generated history: a plain commit or (25%) a
+// CommitKnown with the right root, preceded (20%) by a CommitKnown with a wrong root.
+func commitOps(r *prng.R) []Op {
+	var ops []Op
+	if r.Chance(20) {
+		ops = append(ops, badKnown(r))
+	}
+	if r.Chance(25) {
+		return append(ops, Op{K: "commitknown_ok"})
+	}
+	return append(ops, Op{K: "commit"})
+}
+
+func badKnown(r *prng.R) Op {
+	switch x := r.Intn(100); {
+	case x < 50:
+		return Op{K: "commitknown_bad", Bad: "flip", N: r.Intn(32)}
+	case x < 75:
+		return Op{K: "commitknown_bad", Bad: "prev"}
+	}
+	h := r.Bytes(32)
+	h[0] |= 1 // never all zero
+	return Op{K: "commitknown_bad", Bad: "rand", Hash: h}
+}
+
 // normalize02 makes the history end with a commit (a reopen may follow it).
 func normalize02(c Case) Case {
 	last := ""
@@ -197,7 +262,7 @@ func normalize02(c Case) Case {
 			break
 		}
 	}
-	if last != "commit" {
+	if !isCommit(last) {
 		ops := append([]Op{}, c.Ops...)
 		// keep trailing reopens legal: drop them, they would not follow a commit
 		for len(ops) > 0 && ops[len(ops)-1].K == "reopen" {
@@ -369,12 +434,64 @@ func runC02(c Case) (res *res02) {
 			}
 			res.sig.scan(tree)
 			justCommitted = false
-		case "commit":
+		case "commitknown_bad":
+			// CommitKnown with a wrong root: must fail with ErrKnownRootMismatch and leave
+			// the tree, the database and the version usable
 			res.sig.scan(tree)
-			wl, h, err := tree.Commit(ctx, ns, version)
-			if err != nil {
-				fail("error", "unexpected error: Commit(version %d): %v", version, err)
+			wrong := lastRoot.Hash
+			if o.Bad == "rand" && len(o.Hash) == 32 {
+				copy(wrong[:], o.Hash)
+			} else {
+				_, h0, err := tree.Commit(ctx, ns, version, mkvs.NoPersist())
+				if err != nil {
+					fail("error", "unexpected error: Commit(version %d, NoPersist): %v", version, err)
+					return
+				}
+				if o.Bad == "prev" && version > 0 && !lastRoot.Hash.Equal(&h0) {
+					wrong = lastRoot.Hash
+				} else {
+					wrong = h0
+					wrong[((o.N%32)+32)%32] ^= 0x01
+				}
+			}
+			_, err = tree.CommitKnown(ctx, node.Root{Namespace: ns, Version: version, Type: node.RootTypeState, Hash: wrong})
+			switch {
+			case err == nil:
+				fail("commitknown-accepted", "CommitKnown(version %d) accepted the wrong root %x", version, wrong[:])
 				return
+			case !errors.Is(err, mkvs.ErrKnownRootMismatch):
+				fail("error", "unexpected error: CommitKnown(version %d) with a wrong root: %v", version, err)
+				return
+			}
+			res.sig.scan(tree)
+			res.roots = append(res.roots, []byte{})
+			res.coqOps = append(res.coqOps, "CCommitKnown "+coqBytes(wrong[:]))
+			res.stats.add("commitknown", "bad_"+o.Bad)
+			res.badKnown++
+			justCommitted = false
+		case "commit", "commitknown_ok":
+			res.sig.scan(tree)
+			var wl writelog.WriteLog
+			h := lastRoot.Hash
+			if o.K == "commit" {
+				wl, h, err = tree.Commit(ctx, ns, version)
+				if err != nil {
+					fail("error", "unexpected error: Commit(version %d): %v", version, err)
+					return
+				}
+				res.coqOps = append(res.coqOps, "CCommit")
+			} else {
+				// learn the root with a hash-only commit, then commit against it
+				if _, h, err = tree.Commit(ctx, ns, version, mkvs.NoPersist()); err != nil {
+					fail("error", "unexpected error: Commit(version %d, NoPersist): %v", version, err)
+					return
+				}
+				if wl, err = tree.CommitKnown(ctx, node.Root{Namespace: ns, Version: version, Type: node.RootTypeState, Hash: h}); err != nil {
+					fail("error", "unexpected error: CommitKnown(version %d) with the root %x learnt by a NoPersist commit: %v", version, h[:], err)
+					return
+				}
+				res.coqOps = append(res.coqOps, "CCommitKnown "+coqBytes(h[:]))
+				res.stats.add("commitknown", "ok")
 			}
 			lastRoot = node.Root{Namespace: ns, Version: version, Type: node.RootTypeState, Hash: h}
 			if e.ndb != nil {
@@ -386,7 +503,6 @@ func runC02(c Case) (res *res02) {
 			version++
 			res.commits++
 			res.roots = append(res.roots, append([]byte{}, h[:]...))
-			res.coqOps = append(res.coqOps, "CCommit")
 			// the returned write log comes from a Go map: sort it
 			var lg []WLEntry
 			for _, le := range wl {
@@ -406,6 +522,12 @@ func runC02(c Case) (res *res02) {
 			case e.ndb == nil:
 				d, err = mkvs.VerifDump(ctx, tree)
 			default:
+				// the dump recurses without bound: make sure first that what the database
+				// holds under this root is a finite tree
+				if err = storedTreeFinite(e.ndb, lastRoot); err != nil {
+					fail("stored-tree", "the tree stored at version %d (root %x) is not a finite tree: %v", version-1, h[:], err)
+					return
+				}
 				func() {
 					fresh := mkvs.NewWithRoot(nil, e.ndb, lastRoot, mkvs.Capacity(0, 0))
 					defer fresh.Close()
@@ -440,6 +562,7 @@ func runC02(c Case) (res *res02) {
 		res.eff = append(res.eff, o)
 		res.stats.add("op_kinds", o.K)
 	}
+	res.completed = true // every operation was performed (no early return)
 	at = len(c.Ops) - 1
 	// S(3): Get of every key ever used agrees with the reference map
 	var keys []string
@@ -517,8 +640,11 @@ func genOps02(r *prng.R, g *keygen, isDB, long bool) []Op {
 			}
 			ops = append(ops, Op{K: "applywl", Entries: es})
 		}
+		if r.Chance(3) {
+			ops = append(ops, badKnown(r))
+		}
 		if r.Chance(10) {
-			ops = append(ops, Op{K: "commit"})
+			ops = append(ops, commitOps(r)...)
 			if isDB && r.Chance(30) {
 				ops = append(ops, Op{K: "reopen"})
 			}
@@ -529,7 +655,7 @@ func genOps02(r *prng.R, g *keygen, isDB, long bool) []Op {
 
 func finish02(r *prng.R, c Case) Case {
 	c = normalize02(c)
-	if c.isDB() && c.Ops[len(c.Ops)-1].K == "commit" && r.Chance(30) {
+	if c.isDB() && isCommit(c.Ops[len(c.Ops)-1].K) && r.Chance(30) {
 		c.Ops = append(c.Ops, Op{K: "reopen"})
 	}
 	return c
@@ -538,6 +664,7 @@ func finish02(r *prng.R, c Case) Case {
 func genC02(r *prng.R) Case {
 	c := Case{Mode: "c02", TwinOf: -1}
 	genConfig(r, &c)
+	c.UseLog = r.Chance(50)
 	c.Ops = genOps02(r, newKeygen(r), c.isDB(), longHistory(r, c))
 	return finish02(r, c)
 }
@@ -550,7 +677,20 @@ func otherConfig(r *prng.R, base Case) Case {
 			break
 		}
 	}
+	c.UseLog = r.Chance(50)
 	return c
+}
+
+// twinNoBadKnown: the same history and configuration without the failed CommitKnown attempts.
+func twinNoBadKnown(base Case) Case {
+	c := base
+	c.TwinKind, c.Ops = "nobadknown", nil
+	for _, o := range base.Ops {
+		if o.K != "commitknown_bad" {
+			c.Ops = append(c.Ops, o)
+		}
+	}
+	return normalize02(c)
 }
 
 // sprinkle inserts commit (and reopen) points at random.
@@ -558,8 +698,8 @@ func sprinkle(r *prng.R, ops []Op, isDB bool, pct int) []Op {
 	var out []Op
 	for _, o := range ops {
 		out = append(out, o)
-		if o.K != "commit" && o.K != "reopen" && r.Chance(pct) {
-			out = append(out, Op{K: "commit"})
+		if !isCommit(o.K) && o.K != "reopen" && r.Chance(pct) {
+			out = append(out, commitOps(r)...)
 			if isDB && r.Chance(30) {
 				out = append(out, Op{K: "reopen"})
 			}
@@ -637,7 +777,7 @@ func twinDetour(r *prng.R, base Case, br *res02) Case {
 	}
 	// the base without its final commit / reopen
 	bops := base.Ops
-	for len(bops) > 0 && (bops[len(bops)-1].K == "commit" || bops[len(bops)-1].K == "reopen") {
+	for len(bops) > 0 && (isCommit(bops[len(bops)-1].K) || bops[len(bops)-1].K == "reopen") {
 		bops = bops[:len(bops)-1]
 	}
 	for _, o := range bops {
@@ -658,7 +798,7 @@ func twinDetour(r *prng.R, base Case, br *res02) Case {
 				}
 			}
 		case "reopen":
-			if !c.isDB() || len(ops) == 0 || ops[len(ops)-1].K != "commit" {
+			if !c.isDB() || len(ops) == 0 || !isCommit(ops[len(ops)-1].K) {
 				continue
 			}
 		}
@@ -704,7 +844,7 @@ func faultEligible(base Case) bool {
 	committed := false
 	for _, o := range base.Ops {
 		switch o.K {
-		case "commit":
+		case "commit", "commitknown_ok":
 			committed = true
 		case "ins", "rem", "applywl":
 			if committed {
@@ -721,7 +861,7 @@ func faultEligible(base Case) bool {
 // fails once, k in 1..3) and are retried when it fires. The tree is reopened
 // after a commit before every faulted op so that its path has to be fetched.
 func twinFault(r *prng.R, base Case) Case {
-	c := Case{Mode: "c02", Backend: base.Backend, NodeCap: 5000, ValueCap: 16777216, TwinKind: "fault"}
+	c := Case{Mode: "c02", Backend: base.Backend, NodeCap: 5000, ValueCap: 16777216, TwinKind: "fault", UseLog: r.Chance(50)}
 	var ops []Op
 	for _, o := range base.Ops {
 		switch o.K {
@@ -746,8 +886,10 @@ func twinFault(r *prng.R, base Case) Case {
 	sim := map[string]bool{}
 	for i, o := range ops {
 		switch o.K {
-		case "commit":
+		case "commit", "commitknown_ok":
 			committed = true
+			continue
+		case "commitknown_bad":
 			continue
 		case "rem":
 			if committed && sim[string(o.Key)] {
@@ -788,7 +930,7 @@ func twinFault(r *prng.R, base Case) Case {
 	for _, t := range tlist {
 		last := -1
 		for i := 0; i < t; i++ {
-			if ops[i].K == "commit" {
+			if isCommit(ops[i].K) {
 				last = i
 			}
 		}
@@ -831,7 +973,7 @@ func shrink02(c Case, cut int, accept func(cand Case, r *res02) bool) Case {
 		if r.viol == nil || !accept(cand, r) {
 			return nil, false
 		}
-		if r.panicked || r.viol.kind == "error" {
+		if r.panicked || !r.completed {
 			return cand.Ops, true // the run stopped early: keep the description as it is
 		}
 		return r.eff, true
@@ -914,6 +1056,7 @@ func (s *session02) process(c Case, base *Case, br *res02) (*res02, int) {
 	st.add("backend", c.Backend)
 	st.add("node_cap", fmt.Sprint(c.NodeCap))
 	st.add("value_cap", fmt.Sprint(c.ValueCap))
+	st.add("use_log", fmt.Sprint(c.UseLog))
 	st.add("ops_per_case", bucket(len(c.Ops), 5, 15, 30, 60, 100))
 	st.add("final_size", bucket(len(r.ref), 0, 1, 3, 7, 15))
 	st.add("commits", bucket(r.commits, 1, 2, 4, 8))
@@ -1141,12 +1284,21 @@ func mainC02(seed uint64, n int, out string, rp *replayInput) {
 			twin.TwinOf = bidx
 			s.process(twin, &base, br)
 		}
+		if br.badKnown > 0 && cr.Chance(50) && s.w.Total < n {
+			twin := twinNoBadKnown(base)
+			twin.TwinOf = bidx
+			s.process(twin, &base, br)
+		}
 		if !cr.Chance(60) {
 			continue
 		}
 		for i, m := 0, cr.Range(1, 2); i < m && s.w.Total < n; i++ {
 			var twin Case
-			switch cr.Intn(3) {
+			kind := cr.Intn(3)
+			if kind == 2 && !base.UseLog {
+				kind = cr.Intn(2) // without a write log Commit returns an empty log: no writelog twin
+			}
+			switch kind {
 			case 0:
 				twin = twinShuffle(cr, base, br)
 			case 1:
